@@ -2,6 +2,7 @@ package props
 
 import (
 	"fmt"
+	"os"
 	"strings"
 
 	"czcheck/an"
@@ -54,9 +55,17 @@ func runC09(c *an.Ctx) {
 				key := fmt.Sprintf("Action.Evaluate call #%d in %s", perFn[name], name)
 				c.FuncsAnalysed[fn] = true
 				f := an.FactsAt(in)
+				if os.Getenv("CZ_DEBUG_FACTS") != "" {
+					fmt.Fprintln(os.Stderr, "FACTS", key, f.Strings())
+				}
 				switch name {
 				case "internal/corazawaf.(*Rule).matchVariable":
 					ok := f.HasSuffix(".Function.Type()", "==", nondis)
+					if fg := foreignGuards(f, ".Function.Type()", "rangeindex", "r.actions"); ok && len(fg) > 0 {
+						c.Bad("R1", key+": no other condition", in.Pos(), "the per-match actions are additionally conditioned on "+strings.Join(fg, ", ")+": in those states setvar/capture-style actions silently do not run for a match")
+					} else if ok {
+						c.Ok("R1", key+": no other condition", in.Pos(), "only the action type filter guards the call")
+					}
 					c.Check(ok, "R1", key, in.Pos(), "non-disruptive actions only (per matched value)", "the per-match action loop evaluates actions that are not filtered to ActionTypeNondisruptive: flow/disruptive actions would run once per matched value", f.Strings()...)
 				case "internal/corazawaf.(*Rule).doEvaluate":
 					if f.HasSuffix(".Function.Type()", "==", nondis) {
@@ -93,6 +102,12 @@ func runC09(c *an.Ctx) {
 						okType = w == nil
 					}
 					okParent := f.HasSuffix(".ParentID_", "==", "0")
+					// nothing else decides: the chain walk result, the chain-starter test and the loop itself
+					if fg := foreignGuards(f, ".Function.Type()", "rangeindex", "r.actions", ".ParentID_", "*nr", "matchedValues", "matchedChainValues"); len(fg) > 0 {
+						c.Bad("R1", key+": no other condition", in.Pos(), "the flow/disruptive actions of a fired rule are additionally conditioned on "+strings.Join(fg, ", ")+": in those states skip/skipAfter/allow/deny of a matching rule silently do not run (e.g. in the logging phase of an interrupted transaction)")
+					} else {
+						c.Ok("R1", key+": no other condition", in.Pos(), "only the chain result, the chain-starter test and the action type decide")
+					}
 					c.Check(okType && okParent, "R1", key, in.Pos(), "flow and disruptive actions only, chain starter only",
 						"the once-per-rule action loop is not restricted to flow/disruptive actions of the chain starter (type filter: "+fmt.Sprint(okType)+", ParentID_ == 0: "+fmt.Sprint(okParent)+")", f.Strings()...)
 					// after the chain walk: the loop is not reachable when a link failed (C01.R6) and follows the recursive calls
@@ -225,6 +240,85 @@ func runC09(c *an.Ctx) {
 		})
 	}
 	c.MinCount("R2", "writers of HIGHEST_SEVERITY", nHS, 2)
+
+	// MATCHED_VARS / MATCHED_VARS_NAMES accumulate one entry per match: the only mutators used on them are
+	// Add (one more entry) and Reset (new rule); an overwriting write collapses matches that share a name.
+	nMV := 0
+	addInHook := false
+	for _, fn := range c.P.ModFuncs {
+		rp := relPkg(fn)
+		if strings.HasPrefix(rp, "testing") || strings.HasPrefix(rp, "examples") {
+			continue
+		}
+		an.Instrs(fn, func(in ssa.Instruction) {
+			cc := an.CallOf(in)
+			if cc == nil || len(cc.Args) == 0 {
+				return
+			}
+			callee := cc.StaticCallee()
+			if callee == nil || callee.Signature.Recv() == nil {
+				return
+			}
+			recv := tempName.ReplaceAllString(an.Expr(cc.Args[0]), "")
+			if !strings.HasSuffix(recv, ".variables.matchedVars") && !strings.HasSuffix(recv, ".variables.matchedVarsNames") {
+				return
+			}
+			switch callee.Name() {
+			case "Set", "SetIndex", "Remove":
+				nMV++
+				c.Bad("R2", "MATCHED_VARS mutated by "+callee.Name()+" in "+an.RelName(fn), in.Pos(), "MATCHED_VARS is written with "+callee.Name()+", which replaces what an earlier match stored under the same name: k matches of ARGS:a leave one entry, and a chained rule over MATCHED_VARS runs its actions once instead of k times")
+			case "Add":
+				nMV++
+				if fn == tmv {
+					addInHook = true
+				}
+				c.Ok("R2", "MATCHED_VARS extended by Add in "+an.RelName(fn), in.Pos(), "one more entry per match")
+			case "Reset":
+				nMV++
+			}
+		})
+	}
+	c.MinCount("R2", "mutators of MATCHED_VARS", nMV, 2)
+	if tmv != nil {
+		c.Check(addInHook, "R2", "Transaction.matchVariable adds the match to MATCHED_VARS", tmv.Pos(), "matchedVars.Add(name, value)", "the per-match hook no longer adds the matched value to MATCHED_VARS")
+	}
+
+	// TX.0-9 are written by operators only for rules carrying the capture action: either CaptureField tests
+	// the flag itself or every call site does.
+	if cf := c.Fn("R3", "internal/corazawaf.(*Transaction).CaptureField"); cf != nil {
+		guardedInside, nW := true, 0
+		an.Instrs(cf, func(in ssa.Instruction) {
+			cc := an.CallOf(in)
+			if cc == nil || cc.StaticCallee() == nil || cc.StaticCallee().Signature.Recv() == nil {
+				return
+			}
+			if n := cc.StaticCallee().Name(); n != "SetIndex" && n != "Set" && n != "Add" {
+				return
+			}
+			if !strings.Contains(relPkg(cc.StaticCallee()), "collections") {
+				return
+			}
+			nW++
+			if !an.FactsAt(in).HasSuffix(".Capture", "==", "true") {
+				guardedInside = false
+			}
+		})
+		if nW == 0 {
+			c.Unknown("R3", "CaptureField writes TX", cf.Pos(), "no collection write found in CaptureField")
+		} else if guardedInside {
+			c.Ok("R3", "CaptureField writes TX.n only under the rule's capture flag", cf.Pos(), "the collection write is dominated by tx.Capture == true")
+		} else {
+			// fall back to the call sites
+			var bad []string
+			for _, s := range c.P.CallSites(func(in ssa.Instruction) bool { return an.IsCallTo(in, cf) || an.IsCallToMethod(in, fullPT, "TransactionState", "CaptureField") }) {
+				f := an.FactsAt(s.Call)
+				if !f.HasSuffix(".Capturing()", "==", "true") && !f.HasSuffix(".Capture", "==", "true") {
+					bad = append(bad, an.RelName(s.Fn))
+				}
+			}
+			c.Check(len(bad) == 0, "R3", "CaptureField writes TX.n only under the rule's capture flag", cf.Pos(), "every call site tests Capturing()", "CaptureField no longer tests tx.Capture and these callers do not test Capturing() either: "+strings.Join(bad, ", ")+" — a rule without the capture action overwrites TX.0-9 set by an earlier capturing rule")
+		}
+	}
 
 	// ---- R3 RULE collection and capture flag before anything of the rule runs
 	if de != nil && execOp != nil {
